@@ -1698,3 +1698,8 @@ fn replay(_opts: &Opts, d: &Value, acc: &mut Acc) {
         acc.fail(f);
     }
 }
+
+/// libFuzzer entry: one generated case
+pub fn fuzz_case(genome: &[u8], acc: &mut Acc) -> Vec<Failure> {
+    check_random(genome, acc)
+}
